@@ -1096,7 +1096,7 @@ func slice(vs []any, e, s any) any {
 	} else {
 		end = len(vs)
 	}
-	return vs[start:end]
+	return vs[start:end:end]
 }
 
 func sliceString(v string, e, s any) any {
